@@ -48,6 +48,14 @@ def dualMode : Mode Dual :=
       | .arr #[a, b] => do pure ⟨← parseRat a, ← parseRat b⟩
       | j => do pure ⟨← parseRat j, 0⟩ }
 
+def jetMode (K : Nat) : Mode Jet :=
+  { A := jetA K
+    parse := fun j => match j with
+      | .arr a => do
+          let cs ← a.mapM parseRat
+          pure (Array.ofFn (n := K + 1) fun i => cs.getD i.val 0)
+      | j => do pure (Jet.ofConst K (← parseRat j)) }
+
 def floatMode : Mode Float :=
   { A := floatA
     parse := fun j => match j with
@@ -414,4 +422,10 @@ def main (args : List String) : IO Unit := do
   | ["gauss"] => loop gaussMode stdin stdout {}
   | ["dual"] => loop dualMode stdin stdout {}
   | ["float"] => loop floatMode stdin stdout {}
+  | [m] =>
+      if m.startsWith "jet" then
+        match (m.drop 3).toNat? with
+        | some K => loop (jetMode K) stdin stdout {}
+        | none => IO.eprintln "usage: Main jet<K>"
+      else IO.eprintln "usage: Main (rat|gauss|dual|float|jet<K>)"
   | _ => IO.eprintln "usage: Main (rat|gauss|dual|float)"
